@@ -1,5 +1,96 @@
-(* FactoryIO.v — stub: replaced by the real decoder/runner when the property is built. *)
-From Coq Require Import List.
-From M Require Import Sx.
+(* FactoryIO.v — cases of C09: one flat case (sub-kind 0: a history on one model; sub-kind 1: a
+   queued machine with several models and callbacks that trigger / remove / raise) is run by the
+   flat engine AND by the hierarchical engine on its embedding (mapped back); sub-kind 2 asks
+   the factory specification for one flag tuple. *)
+From Coq Require Import List Arith Bool.
+From M Require Import Sx Base Flat FlatSpec FlatIO Queue QueueIO Hsm Factory.
 Import ListNotations.
-Definition run_factory_case (x : sx) : sx := L [N 0].
+
+(* ---------------- sub-kind 0: a history on one model ---------------- *)
+Definition frun_one (nested : bool) (mc : machine) (ev : env) (m : model) (h : hcall)
+  : M (S:=state) bool :=
+  let c := mkCtx m (h_payload h) (m_send_event mc) in
+  if nested then
+    match h_kind h with
+    | KTrigger => hsm_trigger mc ev c (h_event h)
+    | KMay => hsm_can_trigger mc ev c (h_event h)
+    | KMethod => if known_event mc (h_event h) then hsm_trigger mc ev c (h_event h)
+                 else raise AttributeError
+    end
+  else run_one mc ev m h.
+
+Fixpoint frun_history (nested : bool) (mc : machine) (ev : env) (m : model) (hs : list hcall)
+                      (p : nat) (s : state) : list sx :=
+  match hs with
+  | [] => []
+  | h :: rest =>
+      match frun_one nested mc ev m h p s with
+      | (tr, s', r) =>
+          L [e_list e_item tr; e_result r; N s'] :: frun_history nested mc ev m rest (p + length tr) s'
+      end
+  end.
+
+(* ---------------- sub-kind 1: queued, several models ---------------- *)
+Section QInst.
+  Variable nested : bool.
+  Variable mc : machine.
+  Variable ev : env.
+
+  Definition fqstep (w : world) (q : qentry) : (list item * list action * option exn * world) :=
+    let c := mkCtx (q_model q) (q_payload q) (m_send_event mc) in
+    match (if nested then hsm_trigger mc ev c (q_event q) else trigger mc ev c (q_event q))
+            (w_pos w) (state_of w (q_model q)) with
+    | (tr, st', r) =>
+        (tr, acts_of tr, match r with inl e => Some e | inr _ => None end,
+         mkWorld (set_state (w_states w) (q_model q) st') (w_pos w + length tr))
+    end.
+
+  Fixpoint frun_qhistory (fuel : nat) (hs : list (model * event * nat)) (w : world)
+           (s : qstate) : list sx :=
+    match hs with
+    | [] => []
+    | (m, e, a) :: rest =>
+        match top_trigger fqstep nested_payload fuel w s m e a with
+        | None => [L [N 9]]
+        | Some (bs, r, w', s') =>
+            L [e_list e_block bs;
+               match r with Some e => L [N 1; e_exn e] | None => L [N 0; N 1] end;
+               e_list (e_pair e_nat e_nat) (w_states w');
+               e_list e_nat (qs_models s');
+               N (length (qs_queue s'));
+               e_list (fun d => L [N (q_id (fst d)); e_reason (snd d)]) (qs_dropped s')]
+            :: frun_qhistory fuel rest w' s'
+        end
+    end.
+End QInst.
+
+(* ---------------- sub-kind 2: the factory ---------------- *)
+Definition e_flags (f : flags) : sx :=
+  match f with (g, n, l, y) => L [e_bool g; e_bool n; e_bool l; e_bool y] end.
+Definition e_factory (r : exn + flags) : sx :=
+  match r with inl e => L [N 1; e_exn e] | inr f => L [N 0; e_flags f] end.
+
+Definition run_factory_case (x : sx) : sx :=
+  match x with
+  | L [N 0; L [mcx; evx; N m; N s0; hx]] =>
+      match d_machine mcx, d_env evx, d_list d_call hx with
+      | Some mc, Some ev, Some hs =>
+          L [N 1; L [L (frun_history false mc ev m hs 0 s0); L (frun_history true mc ev m hs 0 s0)]]
+      | _, _, _ => L [N 0]
+      end
+  | L [N 1; L [mcx; evx; msx; hx]] =>
+      match d_machine mcx, d_env evx, d_list (d_pair d_nat d_nat) msx,
+            d_list (fun y => match y with L [N m; N e; N a] => Some (m, e, a) | _ => None end) hx with
+      | Some mc, Some ev, Some ms, Some hs =>
+          let w0 := mkWorld ms 0 in
+          let q0 := mkQS [] (map fst ms) 0 [] in
+          L [N 1; L [L (frun_qhistory false mc ev 200 hs w0 q0); L (frun_qhistory true mc ev 200 hs w0 q0)]]
+      | _, _, _, _ => L [N 0]
+      end
+  | L [N 2; L [g; n; l; y]] =>
+      match d_bool g, d_bool n, d_bool l, d_bool y with
+      | Some g', Some n', Some l', Some y' => L [N 1; e_factory (factory_spec (g', n', l', y'))]
+      | _, _, _, _ => L [N 0]
+      end
+  | _ => L [N 0]
+  end.
